@@ -196,3 +196,63 @@ impl ShiftParts for ark_poly_commit::ipa_pc::Commitment<crate::engine::grp::TA<1
         core::mem::swap(&mut self.shifted_comm, &mut o.shifted_comm);
     }
 }
+
+/// Sonic: keys from one universal string, trimmed for different requests (a multi-step key history).
+/// The verifier key of request A was not trimmed for bound d. A committer key of request B enforces d; a
+/// commitment to p under bound d is, as a group element, the plain commitment to q = X^(max-d)*p. The library's
+/// prover opens q (plain, under a full key); the proof and the value q(z) are presented to verifier A for the
+/// commitment *labelled with bound d*. A must not accept (it cannot enforce d) - in particular not the value
+/// q(z) = z^(max-d) p(z), which is a false claim about p.
+pub fn sonic_foreign_bound(cfg: &Cfg, d: usize) -> Verdict {
+    use ark_poly::{DenseUVPolynomial, Polynomial};
+    use ark_poly_commit::LabeledPolynomial;
+    let (_ck_a, vk_a, mut rng, pp) = match keys::<Sonic>(cfg) {
+        Ok(k) => k,
+        Err(v) => return v,
+    };
+    let maxd = cfg.sz.max_degree;
+    let (ck_b, _) = match SonicPC::trim(&pp, cfg.sz.supported, 0, Some(&[d])) {
+        Ok(k) => k,
+        Err(_) => return Verdict::Discard("driver: request B cannot be trimmed".into()),
+    };
+    let (ck_full, _) = match SonicPC::trim(&pp, maxd, 0, None) {
+        Ok(k) => k,
+        Err(_) => return Verdict::Discard("driver: the full key cannot be trimmed".into()),
+    };
+    let (lps, coeffs) = polys::<Sonic>(cfg, &mut rng);
+    let p = lps[0].polynomial().clone();
+    let mut qc = vec![SF::zero(); maxd - d];
+    qc.extend(coeffs[0].iter().copied());
+    let q = UP::from_coefficients_vec(qc);
+    let lp_b = LabeledPolynomial::new("p0".to_string(), p.clone(), Some(d), None);
+    let lq = LabeledPolynomial::new("p0".to_string(), q.clone(), None, None);
+    let (cb, _) = match catch(|| SonicPC::commit(&ck_b, [&lp_b], None)) {
+        Ok(Ok(x)) => x,
+        _ => return Verdict::Discard("honest phase failed".into()),
+    };
+    let (cq, sq) = match catch(|| SonicPC::commit(&ck_full, [&lq], None)) {
+        Ok(Ok(x)) => x,
+        _ => return Verdict::Discard("honest phase failed".into()),
+    };
+    if terms_of(cb[0].commitment())[0] != terms_of(cq[0].commitment())[0] {
+        return Verdict::Discard("driver: the bounded commitment to p is not the plain commitment to X^(max-d) p".into());
+    }
+    let z = crate::engine::explore::sym("z");
+    let (pz, qz) = (p.evaluate(&z), q.evaluate(&z));
+    if !assume_ne(pz, qz, "q(z) == p(z)") {
+        return Verdict::Hold;
+    }
+    let sp0 = sponge(cfg, 1);
+    let proof = match catch(|| SonicPC::open(&ck_full, [&lq], &cq, &z, &mut sp0.clone(), &sq, None)) {
+        Ok(Ok(x)) => x,
+        _ => return Verdict::Discard("honest phase failed".into()),
+    };
+    let presented = LabeledCommitment::new("p0".to_string(), cb[0].commitment().clone(), Some(d));
+    for (val, what) in [(qz, "z^(max-d) p(z)"), (pz, "p(z)")] {
+        let r = catch(|| SonicPC::check(&vk_a, [&presented], &z, vec![val], &proof, &mut sp0.clone(), None));
+        if let Ok(Ok(true)) = r {
+            return Verdict::viol("accepted-wrong-bound", format!("a verifier key that was not trimmed for bound {} accepted a commitment labelled with it (claimed value {})", d, what));
+        }
+    }
+    Verdict::Hold
+}
